@@ -2,25 +2,32 @@
    Only statements closed by [exact]; the proofs live in Proofs/YamlEdit*.v.
 
    Vocabulary (Model/YamlEdit.v): [node] = yaml.v3 node tree; [yget/yset/ydelete] = YAMLSyntax.Get/Set/Delete;
-   [env_set/env_rm/env_get] = what `esc env set|rm|get` do to the stored definition (routing through "values",
-   "imports" from the root); [denote] = the typed value of a node (scalars by effective tag and text);
+   [env_set/env_rm/env_get] = what `esc env set|rm|get` do to the stored definition: "imports" from the root; below
+   "values" env set calls Set ON THE NODE under the key "values" ([on_values]), env rm calls Delete from the root
+   with "values" prepended (since the seventh repair; before it, on that node as well); [denote] = the typed value of a node (scalars by effective tag and text);
    [wf_root] = a well-formed stored definition (mappings: even content, scalar keys, no duplicate key), or the
    empty definition; [related p q] = one path is a prefix of the other; [run] = a sequence of commands, a
    refused command leaving the definition as it was. *)
 From Verif Require Import Base.Bytes Model.YamlEdit Src.SrcYamlEdit
-  Proofs.YamlEditBase Proofs.YamlEditProofs Proofs.YamlEditNorm Proofs.YamlEditSeq Proofs.YamlEditPrintable
-  Proofs.YamlEditExamples.
+  Proofs.YamlEditBase Proofs.YamlEditProofs Proofs.YamlEditNorm Proofs.YamlEditRec Proofs.YamlEditSeq
+  Proofs.YamlEditPrintable Proofs.YamlEditExamples.
 Local Open Scope Z_scope.
 
 (* what syntax/encoding/yaml.go does today, as read by srcfacts on this run *)
 Definition src_params : params :=
   mk_params set_copies_content set_copies_kind set_copies_tag set_copies_value
             set_style_code set_moves_line_comment fixes_key_line_comment rm_handles_imports
+            rm_guards_empty_path rm_values_from_root
             delete_empty_code delete_missing_code.
 
 (* side conditions on the source, discharged by computation: Set copies content, kind, tag, value and the style
    of non-string scalars; Delete guards the empty path and the missing intermediate key *)
 Theorem C15_src_params_ok : params_ok src_params = true.
+Proof. exact eq_refl. Qed.
+
+(* ... and `env rm` has its own guard for an empty path if it deletes from the root of the definition (otherwise
+   Delete(root, ["values"]) would remove every value) *)
+Theorem C15_src_cli_params_ok : cli_params_ok src_params = true.
 Proof. exact eq_refl. Qed.
 
 Definition set_ok : set_params_ok src_params = true := proj1 (andb_prop _ _ C15_src_params_ok).
@@ -155,6 +162,39 @@ Proof. exact (env_rm_frame src_params). Qed.
 Theorem C15_env_rm_same_path_as_get : forall p, p <> [] -> rm_path src_params p = full_path p.
 Proof. exact (fun p => rm_path_full src_params p eq_refl). Qed.
 
+(* an empty path: refused, or the definition is left as it is *)
+Theorem C15_env_rm_empty_path : forall root root', env_rm src_params [] root = Ok root' -> root' = root.
+Proof. exact (fun root root' => env_rm_empty_path src_params root root' C15_src_cli_params_ok). Qed.
+
+(* ---------------- the edit on the node under "values" and the edit from the root ----------------
+   Set / Delete from the root are, level by level, the edit on the value of the key followed by the repair of the
+   line comment of that key ([fix_key_at]: fixKeyComment); so what `env set` does (Set on the node under "values")
+   is Set(root, "values" :: p) WITHOUT the repair of the key "values": the two results differ at most in where the
+   line comment of that key is ([upto_values_key]).  The same for Delete(valuesNode, p), which `env rm` used. *)
+Theorem C15_set_level_by_level : forall key p new n,
+  nkind (promote (AKey key) n) = KMap ->
+  yset src_params (AKey key :: p) new n =
+  rmap (fun c => fix_key_at src_params key (with_content (promote (AKey key) n) c))
+       (upd_key key (yset src_params p new) (ncontent n)).
+Proof. exact (yset_cons_map src_params). Qed.
+
+Theorem C15_delete_level_by_level : forall key p n,
+  p <> [] -> nkind n = KMap ->
+  ydelete src_params (AKey key :: p) n =
+  rmap (fun c => fix_key_at src_params key (with_content n c))
+       (del_key src_params key false (ydelete src_params p) (ncontent n)).
+Proof. exact (ydelete_cons_map src_params). Qed.
+
+Theorem C15_set_on_values_node : forall p v root root',
+  nkind root = KMap -> on_values (yset src_params p v) root = Ok root' ->
+  exists r2, yset src_params (AKey values_key :: p) v root = Ok r2 /\ upto_values_key r2 root'.
+Proof. exact (on_values_set src_params). Qed.
+
+Theorem C15_delete_on_values_node : forall p root root' vn,
+  p <> [] -> yget [AKey values_key] root = GFound vn -> on_values (ydelete src_params p) root = Ok root' ->
+  exists r2, ydelete src_params (AKey values_key :: p) root = Ok r2 /\ upto_values_key r2 root'.
+Proof. exact (on_values_delete src_params). Qed.
+
 (* ---------------- sequences of commands (by induction over the sequence) ---------------- *)
 (* no sequence of env set / env rm commands ever panics, whatever the paths and values *)
 Theorem C15_cli_run_total : forall ops t,
@@ -171,7 +211,7 @@ Proof. exact (fun ops t t' => cli_run_wf src_params ops t t' C15_src_params_ok).
 Theorem C15_cli_run_frame : forall ops t t' q,
   wf_root t = true -> Forall op_wf ops -> run (cli_step src_params) ops t = Some t' ->
   Forall (fun o => cli_indep src_params o q) ops -> yget q t' = yget q t.
-Proof. exact (fun ops t t' q => cli_run_frame src_params ops t t' q C15_src_params_ok). Qed.
+Proof. exact (fun ops t t' q => cli_run_frame src_params ops t t' q C15_src_params_ok C15_src_cli_params_ok). Qed.
 
 (* a value that was set is still returned by get after any later commands that do not touch its path *)
 Theorem C15_cli_run_get_set : forall p v t1 t2 ops t3,
@@ -179,7 +219,9 @@ Theorem C15_cli_run_get_set : forall p v t1 t2 ops t3,
   env_set src_params p v t1 = Ok t2 -> run (cli_step src_params) ops t2 = Some t3 ->
   Forall (fun o => cli_indep src_params o (full_path p)) ops ->
   exists m, env_get p t3 = GFound m /\ denote m = denote v.
-Proof. exact (fun p v t1 t2 ops t3 => cli_run_get_set src_params p v t1 t2 ops t3 C15_src_params_ok). Qed.
+Proof.
+  exact (fun p v t1 t2 ops t3 => cli_run_get_set src_params p v t1 t2 ops t3 C15_src_params_ok C15_src_cli_params_ok).
+Qed.
 
 (* the same for direct sequences of YAMLSyntax.Set / Delete calls *)
 Theorem C15_api_run_total : forall ops t,
@@ -204,30 +246,47 @@ Proof. exact (fun p v t1 t2 ops t3 => api_run_get_set src_params p v t1 t2 ops t
 
 (* ---------------- comments stay where yaml.v3 can write them ---------------- *)
 (* [printable]: no block collection carries a line comment (yaml.v3 would write such a comment after the next entry
-   of the parent, i.e. move it to an untouched key).  Parsed definitions and parsed values are printable; every
-   sequence of commands keeps the definition printable: Set turns the line comment of a scalar that is replaced by
-   a block collection into the head comment of its first entry, and Set/Delete move the line comment of a key whose
-   value is no longer a non-empty block collection to the value ([norm_path], marking an empty collection flow). *)
-Theorem C15_src_keeps_line_comments_printable : p_lc_move src_params = true /\ p_key_lc src_params = true.
-Proof. exact (conj eq_refl eq_refl). Qed.
+   of the parent, i.e. move it to an untouched key), and a key carries a line comment only if its value is a scalar
+   or a non-empty block collection (with an empty collection yaml.v3 writes "key: # comment" and "{}" on the next
+   line: the stored definition no longer parses).  (That parsed values and the definitions yaml.v3 writes back
+   unchanged are in this class is a statement about yaml.v3: exercised by the correspondence check, not proved.)
+   Every sequence of commands keeps the definition printable: Set turns the line comment of a
+   scalar that is replaced by a block collection into the head comment of its first entry, Set/Delete move the line
+   comment of a key whose value is no longer a non-empty block collection to the value (marking an empty collection
+   flow), and `env rm` deletes from the root of the definition so that this also happens for the key "values". *)
+Theorem C15_src_keeps_line_comments_printable : printable_params_ok src_params = true.
+Proof. exact eq_refl. Qed.
+
+Definition lc_move_ok : p_lc_move src_params = true := eq_refl.
+Definition key_lc_ok_src : p_key_lc src_params = true := eq_refl.
 
 Theorem C15_set_printable : forall p new n n',
   wf_root n = true -> wf new = true -> printable n = true -> printable new = true ->
   yset src_params p new n = Ok n' -> printable n' = true.
-Proof.
-  exact (fun p new n n' => set_printable src_params p new n n' set_ok (proj1 C15_src_keeps_line_comments_printable)).
-Qed.
+Proof. exact (fun p new n n' => set_printable src_params p new n n' set_ok lc_move_ok key_lc_ok_src). Qed.
 
 Theorem C15_delete_printable : forall p n n',
   wf_root n = true -> printable n = true -> ydelete src_params p n = Ok n' -> printable n' = true.
-Proof. exact (delete_printable src_params). Qed.
+Proof. exact (fun p n n' => delete_printable src_params p n n' key_lc_ok_src). Qed.
+
+(* env set: although the key "values" is not repaired, it never needs to be: Set below a node leaves a non-empty
+   collection of the style it had *)
+Theorem C15_env_set_printable : forall p v root root',
+  wf_root root = true -> wf v = true -> printable root = true -> printable v = true ->
+  env_set src_params p v root = Ok root' -> printable root' = true.
+Proof. exact (fun p v root root' => env_set_printable src_params p v root root' set_ok lc_move_ok key_lc_ok_src). Qed.
 
 Theorem C15_cli_run_printable : forall ops t t',
   wf_root t = true -> printable t = true -> Forall op_printable ops ->
   run (cli_step src_params) ops t = Some t' -> printable t' = true.
 Proof.
-  exact (fun ops t t' => cli_run_printable src_params ops t t' set_ok (proj1 C15_src_keeps_line_comments_printable)).
+  exact (fun ops t t' => cli_run_printable src_params ops t t' set_ok C15_src_keeps_line_comments_printable).
 Qed.
+
+Theorem C15_api_run_printable : forall ops t t',
+  wf_root t = true -> printable t = true -> Forall op_printable ops ->
+  run (api_step src_params) ops t = Some t' -> printable t' = true.
+Proof. exact (fun ops t t' => api_run_printable src_params ops t t' set_ok lc_move_ok key_lc_ok_src). Qed.
 
 (* ---------------- the statements do fail for the code as it was before the repairs ---------------- *)
 (* [old_params] = the facts srcfacts reads from the unrepaired yaml.go: Set does not copy the style, Delete has no
@@ -243,6 +302,22 @@ Example C15_unrepaired_delete_panics :
   ydelete old_params [AKey "b"; AKey "c"] (mapping [key_node "a"; mapping [key_node "x"; scalar "!!int" 0 "1"]]) = Panic
   /\ ydelete old_params [] (mapping []) = Panic.
 Proof. exact old_delete_panics. Qed.
+
+(* [rm_on_values_params] = the source after six repairs, `env rm` still calling Delete on the node under "values":
+     values: # c
+       a: 1
+   then  env rm a : the definition is well-formed and printable, the command succeeds, and what it stores is not
+   printable (the key "values" keeps "# c" over an empty mapping: yaml.v3 writes "values: # c" / "{}").  With the
+   repair the comment moves to the empty mapping: "values: {} # c". *)
+Example C15_unrepaired_rm_on_values_breaks_yaml :
+  params_ok rm_on_values_params = true /\ wf_root values_lc_doc = true /\ printable values_lc_doc = true /\
+  exists t', run (cli_step rm_on_values_params) [ORm [AKey "a"]] values_lc_doc = Some t' /\ printable t' = false.
+Proof. exact rm_on_values_unprintable. Qed.
+
+Example C15_repaired_rm_moves_values_comment :
+  exists t', run (cli_step src_params) [ORm [AKey "a"]] values_lc_doc = Some t' /\ printable t' = true /\
+             yget [AKey "values"] t' = GFound (Node KMap "!!map" 32 "" "" "# c" "" []).
+Proof. exact rm_from_root_printable. Qed.
 
 (* ---------------- non-vacuity: a concrete definition with comments and a sequence of five commands (set over a
    quoted scalar, --secret set creating intermediates, rm of a sequence element, rm below a missing key, set
